@@ -1565,6 +1565,15 @@ fn main() {
       let l = n.div_ceil(8) * 8;
       cx.run_sequence(&Route::New(n), None, &[Op::Set(n - 1, t), Op::Get(n - 1), Op::Set(l - 1, t), Op::Set(l - 2, f), Op::Get(l - 1), Op::Set(l, t), Op::Get(l), Op::Get(l + 7)], 0, "canon");
     }
+    // large size classes (1 MiB of bits and beyond): nothing in the statement caps the length (skipped at the reduced
+    // scale of the Miri/sanitizer stages)
+    if scale >= 1000 {
+      for n in [8usize << 20, (8 << 20) + 8, (16 << 20) + 64] {
+        let m = 8usize << 20;
+        cx.rep.inc("large_list_sequences");
+        cx.run_sequence(&Route::New(n), None, &[Op::Set(n - 1, t), Op::Set(m - 1, t), Op::Set(m.min(n - 1), t), Op::Get(n - 1), Op::Set(0, t), Op::Set(n - 2, f), Op::Get(n), Op::Get(m - 1)], 0, "canon");
+      }
+    }
     // below the documented minimum: Err is fine; if accepted it must hold that many entries
     for n in [0usize, 1, 8, 100, MIN_ENTRIES - 8, MIN_ENTRIES - 1] {
       cx.rep.eval();
